@@ -106,6 +106,11 @@ func runC02(p *Program, e *Engine, r *Result, tier string) {
 	// (5) a listed path that now names another file does not keep reporting the old file under that name
 	if tf := findTables(a); tf != nil {
 		c04Replace(a, tf, ro.API["AddWith"], "C02.5")
+		// Remove takes out both entries of a watch, always together (a surviving wd entry keeps delivering events for a
+		// path Remove said it removed) - shared with C04.3
+		if rm := ro.API["Remove"]; rm != nil {
+			pairTables(a, tf, rm, "C02.4")
+		}
 		// (6) a watch whose file was renamed away is ended, so that later changes of that file cannot be reported under
 		// the name it no longer has (shared with C09.2)
 		if _, hv2, hctx2, entry, watchLit, maskSubj := handlerFrame(a, df, tf); hctx2 != nil {
